@@ -5,9 +5,12 @@ Line-protocol driver for C11.  One case = one history through one service instan
 space separated tokens
 
   R:<conn>:<method>:<uri>:<ver>:<peer>:<hdrs>:<reqdata>:<acts>   serve a request
-        conn `-`|n   peer `-`|port   hdrs `-`|name=v,name=v   reqdata `-`|tag=v,…
+        conn `-`|n   peer `-`|port|`~` (not mentioned at all)   hdrs `-`|name=v,name=v   reqdata `-`|tag=v,…
         acts `-`| e<tag>=<v> (insert extension) , k<slot> (stash a clone) , x (handler never
-        completes, caller drops the future)
+        completes, caller drops the future) , p<n> (after its actions the handler parks on gate n
+        while later tokens run; ignored if gate n is occupied or `x` is present)
+  G:<n>             open gate n: the parked handler dumps again, returns, the middleware dumps,
+                    the request is dropped
   D:<slot>          drop the stashed handle
   V:<slot>          dump through the stashed handle
   E:<slot>:<tag>=<v> insert an extension through the stashed handle
@@ -16,7 +19,7 @@ space separated tokens
   Q:<conn>          connection closed (its dispatcher drops the connection data)
   M=<mode>          harness mode marker (no effect on the model)
 
-Output: per token `<text>#<live extension values>,<live connection data>`; `<text>` of `R` is the
+Output: per token `<text>#<live extension values>,<live connection data>,<app data alive 0/1>`; `<text>` of `R` is the
 `|`-joined dumps (middleware before routing | handler | middleware after), see
 `ActixModel.ReqPool.dump`.  Implementation side: `harness/src/props/c11.rs`.
 -/
@@ -53,8 +56,20 @@ def parseAct (s : String) : Option Act :=
     | _ => none
   | _ => none
 
+/-- slot in which the request of a handler parked on gate `n` is held -/
+def parkSlot (n : Nat) : Nat := 1000 + n
+
+/-- the first `p<n>` of an action list -/
+def parkOf (s : String) : Option Nat :=
+  if s == "-" then none
+  else (s.splitOn ",").findSome? fun a =>
+    match a.toList with
+    | 'p' :: rest => (String.ofList rest).toNat?
+    | _ => none
+
 def parseActs (s : String) : Option (List Act) :=
-  if s == "-" then some [] else (s.splitOn ",").mapM parseAct
+  if s == "-" then some []
+  else ((s.splitOn ",").filter fun a => !(a.startsWith "p")).mapM parseAct
 
 def slot (s : String) : Option Nat := s.toNat?.bind fun n => if n == 0 then none else some n
 
@@ -62,7 +77,8 @@ def parseOp (tok : String) : Option Op :=
   match tok.splitOn ":" with
   | ["R", conn, method, uri, ver, peer, hdrs, xd, acts] => do
     let conn ← optNat conn
-    let peer ← optNat peer
+    -- `~`: request built without mentioning a peer address (actix_http's TestRequest)
+    let peer ← if peer == "~" then some none else optNat peer
     let hdrs ← parsePairs hdrs
     let xd ← parseNatPairs xd
     let acts ← parseActs acts
@@ -87,16 +103,47 @@ def parseOp (tok : String) : Option Op :=
   | ["Q", c] => c.toNat?.map .closeConn
   | _ => none
 
-def suffix (w : World) : String := "#" ++ toString (aliveExt w) ++ "," ++ toString (aliveConn w)
+def suffix (w : World) : String :=
+  "#" ++ toString (aliveExt w) ++ "," ++ toString (aliveConn w) ++ "," ++ toString (aliveApp w)
+
+/-- A parked handler is the composition of model operations: the request under service is kept
+alive in `parkSlot n` and the middleware's second dump is deferred (`serve … [stash, cancel]`);
+opening the gate is two dumps through that handle followed by its drop. -/
+def parkActs (w : World) (tok : String) (acts : List Act) : List Act :=
+  match tok.splitOn ":" with
+  | [_, _, _, _, _, _, _, _, a] =>
+    match parkOf a with
+    | some n =>
+      if acts.contains .cancel || (w.slots.lookup (parkSlot n)).isSome then acts
+      else acts ++ [.stash (parkSlot n), .cancel]
+    | none => acts
+  | _ => acts
+
+def openGate (w : World) (n : Nat) : World × String :=
+  match w.slots.lookup (parkSlot n) with
+  | none => (w, "-")
+  | some _ =>
+    let d1 := (step theCfg w (.view (parkSlot n))).2
+    let w' := (step theCfg w (.drop (parkSlot n))).1
+    (w', d1 ++ "|" ++ d1)
 
 def runTokens : World → List String → List String
   | _, [] => []
   | w, tok :: rest =>
     if tok.startsWith "M=" then ("m" ++ suffix w) :: runTokens w rest
+    else if tok.startsWith "G:" then
+      match (tok.drop 2).toString.toNat? with
+      | some n =>
+        let (w', o) := openGate w n
+        (o ++ suffix w') :: runTokens w' rest
+      | none => ("bad-op" ++ suffix w) :: runTokens w rest
     else
       match parseOp tok with
       | none => ("bad-op" ++ suffix w) :: runTokens w rest
       | some op =>
+        let op := match op with
+          | .serve r acts => Op.serve r (parkActs w tok acts)
+          | op => op
         let (w', o) := step theCfg w op
         (o ++ suffix w') :: runTokens w' rest
 
